@@ -193,7 +193,7 @@ def stage_wsdl(p, full_matrix=True, restr=False):
         L.append(f"    emit(format!(\"{{{{\\\"ev\\\":\\\"case-done\\\",\\\"id\\\":\\\"{opid}\\\"}}}}\"));")
         L.append("}")
         fns.append((opid, "\n".join(L)))
-        meta[opid] = {"op": op, "req_tree": req_tree, "scen": scen, "two_way": two_way, "docs": docs, "method": method,
+        meta[opid] = {"op": op, "req_tree": req_tree, "scen": scen, "two_way": two_way, "docs": docs, "method": method, "req_lit": req_lit,
                       "headers_in": len(hdr_els), "parts_attr": op.in_parts_attr}
     if not fns:
         return
@@ -210,6 +210,23 @@ def stage_wsdl(p, full_matrix=True, restr=False):
              "    let _ = RT.set(tokio::runtime::Builder::new_multi_thread().worker_threads(2).enable_all().build().unwrap());\n"
              "}\n")
     fns = [("init", "")] + fns
+    if full_matrix:
+        # last case: the listener is stopped and its socket dropped, so the port refuses connections
+        m0 = meta[first]
+        req_lit0 = m0["req_lit"]
+        extra += ("fn case_refused() {\n"
+                  "    let sh = SHARED.get().unwrap().clone(); let rt = RT.get().unwrap();\n"
+                  "    emit(\"{\\\"ev\\\":\\\"begin\\\",\\\"id\\\":\\\"refused\\\",\\\"side\\\":\\\"g\\\"}\".to_string());\n"
+                  "    set_script(&sh, 200, \"\", 0); sh.stop.store(true, Ordering::SeqCst);\n"
+                  "    let _ = std::net::TcpStream::connect((\"127.0.0.1\", PORT)); std::thread::sleep(std::time::Duration::from_millis(150));\n"
+                  f"    let svc = g::{svc_name}::new(None); let req = {req_lit0};\n"
+                  f"    let r = rt.block_on(async {{ svc.{m0['method']}(req).await }});\n"
+                  "    let outcome = match r { Ok(_) => \"\\\"result\\\":\\\"value\\\"\".to_string(), Err(e) => format!(\"\\\"result\\\":\\\"error\\\",\\\"kind\\\":\\\"{}\\\"\", err_kind(&e)) };\n"
+                  f"    emit(format!(\"{{{{\\\"ev\\\":\\\"refused\\\",\\\"op\\\":\\\"{first}\\\",{{}}}}}}\", outcome));\n"
+                  "    emit(\"{\\\"ev\\\":\\\"end\\\",\\\"id\\\":\\\"refused\\\",\\\"side\\\":\\\"g\\\"}\".to_string());\n"
+                  "    emit(\"{\\\"ev\\\":\\\"case-done\\\",\\\"id\\\":\\\"refused\\\"}\".to_string());\n"
+                  "}\n")
+        fns = fns + [("refused", "")]
     events, hung, diags = driver.build_and_run(p, fns, extra_items=extra, name="wdrv", timeout=180)
     if diags is not None:
         # map not-Send diagnostics back to operations; anything else is a harness problem
@@ -257,6 +274,13 @@ def judge(p, events, meta, svc_name):
     def bump(k, n=1):
         st[k] = st.get(k, 0) + n
 
+    for e in events:
+        if e.get("ev") == "refused":
+            bump("scenario:connection-refused")
+            if e.get("result") != "error" or e.get("kind") != "Http":
+                p.finding("value-for-failure" if e.get("result") == "value" else "refused-error-kind", op=meta[e["op"]]["op"].name.xml,
+                          scenario="connection-refused", status=0, body="-", mode=9, result=e.get("result"), kind=e.get("kind"), msg="",
+                          accepts=0, requests=0)
     for opid, m in meta.items():
         op = m["op"]
         s = sers.get(opid)
